@@ -880,7 +880,26 @@ func (sc *c17Scn) memOp() {
 	}
 	pid := uint32(r.pick(0, 0, 0, 1, 2))
 	wd := r.chance(40)
+	plen := 0
+	if rt != nil && r.chance(8) {
+		// a partial-length prefix (33..95) as the decoder hands it over: leading bits, zero-padded
+		plen = r.pick(40, 48, 64, 72, 88)
+		v := c17Num(rt) & (^uint64(0) << (96 - plen))
+		var b [8]byte
+		for i := 0; i < 8; i++ {
+			b[i] = byte(v >> (56 - 8*i))
+		}
+		if m, err := bgp.ParseExtended(b[:]); err == nil {
+			rt = m
+			o.stat("mem_partial_length", 1)
+		} else {
+			plen = 0
+		}
+	}
 	n := bgp.NewRouteTargetMembershipNLRI(as, rt)
+	if plen != 0 {
+		n.Length = uint8(plen)
+	}
 	var attrs []bgp.PathAttributeInterface
 	if !wd {
 		mp, _ := bgp.NewPathAttributeMpReachNLRI(bgp.RF_RTC_UC, []bgp.PathNLRI{{NLRI: n, ID: pid}}, c17Srcs[0].Address)
